@@ -32,7 +32,20 @@ def impl_label(case) -> str:
     nxg.spring_layout = lambda g, **kw: sentinel_pos
     kwargs = dict(case["kw"])
     if case["aliases"] is not None:
-        kwargs["aliases"] = dict(case["aliases"])
+        al = dict(case["aliases"])
+        # any mapping: a dict, an OrderedDict, a defaultdict (whose factory must not label modules nobody aliased)
+        k = sum(len(a) for a in al) % 5
+        if k == 1:
+            import collections
+
+            d = collections.defaultdict(lambda: "?")
+            d.update(al)
+            al = d
+        elif k == 2:
+            import collections
+
+            al = collections.OrderedDict(al)
+        kwargs["aliases"] = al
     given = dict(kwargs)
     try:
         try:
